@@ -47,6 +47,9 @@ def cases(tier, seed):
     out.append({"id": "odd-state_named_value", "odd": "state_named_value", "fv": dict(family.BASE), "n": 3, "subsets": "few", "seed": seed, "dev": 1})
     # non-broadcast-safe auxiliary function as target: the target columns must still be row-wise correct
     out.append({"id": "fam-B0+aux=reduce", "fv": dict(family.BASE, aux="reduce"), "n": 3, "subsets": "few", "seed": seed, "dev": 1, "skip_chain": True})
+    # targets that depend on the period only (agent-invariant): alone, together, and next to agent-dependent ones
+    for T_, n_ in ((4, 3), (3, 3), (2, 5), (3, 1)):
+        out.append({"id": f"fam-B0+aux=age-T{T_}-n{n_}", "fv": dict(family.BASE, aux="age", T=T_), "n": n_, "subsets": "few", "seed": seed, "dev": 1, "pairs": True})
     members = e1.family_members(1 if tier == "quick" else 2)[0]
     for fv, dev in members:
         out.append({"id": "fam-" + e1.fv_id(fv), "fv": fv, "n": 3, "subsets": "few", "seed": seed, "dev": dev})
@@ -107,6 +110,8 @@ def run_case(case):
         subsets = [list(c) for k in range(len(base6) + 1) for c in itertools.combinations(base6, k)]
     else:
         subsets = [[], list(alphabet)] + [[t] for t in alphabet]
+        if case.get("pairs"):
+            subsets += [list(c) for c in itertools.combinations(alphabet, 2)]
     T = r.T
     Vj = [jnp.asarray(v) for v in V]
     # legal input: on-grid values of a continuous state given as an INTEGER array; the panel must be the same
